@@ -56,6 +56,13 @@ const (
 )
 
 func classifyWriter(p *an.Prog, f *an.Fn, e ast.Expr) string {
+	return classifyWriterIn(p, f, f, e, 0)
+}
+
+// classifyWriterIn classifies e, an expression in the body of `in`: root itself or a new helper reached
+// from it, whose parameters stand for the arguments of its call sites.
+func classifyWriterIn(p *an.Prog, root, in *an.Fn, e ast.Expr, depth int) string {
+	f := in
 	info := f.Info()
 	e = an.Unparen(e)
 	if u, ok := e.(*ast.UnaryExpr); ok && u.Op == token.AND {
@@ -75,6 +82,22 @@ func classifyWriter(p *an.Prog, f *an.Fn, e ast.Expr) string {
 		o := an.ObjOf(info, id)
 		if o == nil {
 			return "?"
+		}
+		if _, isParam := an.IsParam(root, o); isParam {
+			return wPAR
+		}
+		if v, ok := o.(*types.Var); ok && depth < 8 {
+			if binds := p.HelperBinds(root)[v]; len(binds) > 0 {
+				cls := ""
+				for _, b := range binds {
+					c := classifyWriterIn(p, root, b.Caller, b.Arg, depth+1)
+					if cls != "" && cls != c {
+						return "?"
+					}
+					cls = c
+				}
+				return cls
+			}
 		}
 		if _, isParam := an.IsParam(f, o); isParam {
 			return wPAR
